@@ -18,8 +18,8 @@ from ..wsgi_peer import WsgiPeer
 SAFE = ["a", "b", " ", ":", "\n", "\r", "\r\n", "é", "中", "x y", "", "data: z", "\n\n", "  lead", "\U0001f600", ": c"]
 EXOTIC = [" ", " ", "\u0085", "\x0b", "\x0c", "\x1c", "\x1d", "\x1e"]
 LATIN_EXOTIC = ["\u0085", "\x0b", "\x0c", "\x1c", "\x1d", "\x1e"]
-NAMES = ["e", "e:f", "é", " sp", "add", "x y", "update"]
-IDS = ["1", "a b", "é", "0", "id:1", "x\u0085y"]
+NAMES = ["e", "e:f", "é", " sp", "add", "x y", "update", "trail ", "  two", "sep\u2028", "\x1ckey\x85", "\ttab"]
+IDS = ["1", "a b", "é", "0", "id:1", "x\u0085y", "3 ", " 4", "\u2029p", "\x0bv\x0c"]
 LINE_SPLIT = re.compile(r"\r\n|\r|\n")
 
 
@@ -111,7 +111,8 @@ class C19(Prop):
                 # the response object is mounted as an application and serves two requests (its feed is re-iterable)
                 "reuse": t.draw(6) == 0,
                 # (ASGI) the receive channel has nothing to offer besides the request: asking again raises; the client is still there
-                "recv_raises": t.draw(8) == 0}
+                "recv_raises": t.draw(8) == 0,
+                "shape": t.choice([None] * 9 + ["str-enum", "proxy", "chainmap"])}
         if surface == "wsgi-sse":
             plan["preempt"] = t.choice([(0, 1), (1, 20), (1, 5)])
             plan["cdelays"] = [t.choice((0.0, 0.0, 0.001, P / 2, P + 0.001)) for _ in range(6)]
@@ -124,6 +125,20 @@ class C19(Prop):
         # the items as the user yields them (fresh objects per run; 'twice' re-yields the same object)
         originals = [dict(e) for e in plan["events"]]
         yielded = [dict(e) for e in plan["events"]]
+        shape = plan.get("shape")
+        if shape == "str-enum":
+            # text that is a str subclass (a (str, Enum) member): it IS its value, whatever its __str__/__format__ print
+            import enum
+            ctx.probe("data_is_str_enum_member")
+            for i, e in enumerate(yielded):
+                if "data" in e:
+                    e["data"] = enum.Enum("Status%d" % i, {"MEMBER": e["data"]}, type=str).MEMBER
+        elif shape in ("proxy", "chainmap"):
+            # a Mapping that is not a dict
+            import collections
+            import types
+            ctx.probe("event_is_mapping_not_dict")
+            yielded = [types.MappingProxyType(e) if shape == "proxy" else collections.ChainMap(e) for e in yielded]
         seq = list(range(len(yielded)))
         if plan["twice"] is not None:
             seq.insert(plan["twice"] + 1, plan["twice"])
